@@ -115,8 +115,16 @@ CO_Tree::CO_Tree(Iterator i, const dimension_type n) {
     else {
       if (top_n == 1) {
         PPL_ASSERT(root.index() == unused_index);
+        try {
+          new(&(*root)) data_type(*i);
+        }
+        catch (...) {
+          // This is a constructor: release what has been built so far
+          // (the current node is still marked as unused).
+          destroy();
+          throw;
+        }
         root.index() = i.index();
-        new(&(*root)) data_type(*i);
         ++i;
         --stack_first_empty;
       }
